@@ -1028,8 +1028,146 @@ def destructure_loop_target(block: list[ast.stmt], root) -> list[ast.stmt]:
     return out
 
 
+def split_accumulator_loops(stmts: list[ast.stmt]) -> list[ast.stmt]:
+    """a = []; b = []                                       a = []
+       for T in X:                                          for T in X: if c: a.append(E)  else: a.append(G)
+           if c: a.append(E); b.append(F)           ->      b = []
+           else: a.append(G)                                for T in X: if c: b.append(F)
+    one loop filling several lists is one loop per list, when the rounds do not depend on each other: every statement of the body
+    is an append to one of the lists (under tests that only compute), the lists are read nowhere in the loop, and the elements of
+    all lists but one are made of the loop variables and constants alone (so that running their rounds after all rounds of the
+    other list computes the same).  X is read once per list, as the two-loop spelling of the same method does."""
+    def only_appends(body, accs):
+        for s_ in body:
+            if isinstance(s_, ast.Expr) and isinstance(s_.value, ast.Call) and isinstance(s_.value.func, ast.Attribute) and s_.value.func.attr == "append" \
+                    and isinstance(s_.value.func.value, ast.Name) and s_.value.func.value.id in accs and len(s_.value.args) == 1 and not s_.value.keywords \
+                    and not isinstance(s_.value.args[0], ast.Starred):
+                continue
+            if isinstance(s_, ast.If) and is_pure(s_.test) and only_appends(s_.body, accs) and only_appends(s_.orelse, accs):
+                continue
+            return False
+        return True
+
+    def elements(body, acc):
+        out = []
+        for s_ in body:
+            if isinstance(s_, ast.If):
+                out += elements(s_.body, acc) + elements(s_.orelse, acc)
+            elif s_.value.func.value.id == acc:
+                out.append(s_.value.args[0])
+        return out
+
+    def restrict(body, acc):
+        out = []
+        for s_ in body:
+            if isinstance(s_, ast.If):
+                b_, o_ = restrict(s_.body, acc), restrict(s_.orelse, acc)
+                if b_:
+                    out.append(ast.copy_location(ast.If(test=copy.deepcopy(s_.test), body=b_, orelse=o_), s_))
+                elif o_:
+                    out.append(ast.copy_location(ast.If(test=ast.UnaryOp(op=ast.Not(), operand=copy.deepcopy(s_.test)), body=o_, orelse=[]), s_))
+            elif s_.value.func.value.id == acc:
+                out.append(copy.deepcopy(s_))
+        return out
+
+    def block(b):
+        b = list(b)
+        for s_ in b:
+            if isinstance(s_, (ast.FunctionDef, ast.AsyncFunctionDef, ast.ClassDef)):
+                continue
+            for fld in ("body", "orelse", "finalbody"):
+                bb = getattr(s_, fld, None)
+                if isinstance(bb, list) and bb and isinstance(bb[0], ast.stmt):
+                    setattr(s_, fld, block(bb))
+            if isinstance(s_, ast.Try):
+                for h in s_.handlers:
+                    h.body = block(h.body)
+        out = []
+        i = 0
+        while i < len(b):
+            s_ = b[i]
+            if isinstance(s_, ast.For) and not s_.orelse and is_pure(s_.iter):
+                # the run of `x = []` straight before the loop
+                j = i
+                accs = []
+                while j > 0 and isinstance(b[j - 1], ast.Assign) and len(b[j - 1].targets) == 1 and isinstance(b[j - 1].targets[0], ast.Name) \
+                        and isinstance(b[j - 1].value, ast.List) and not b[j - 1].value.elts:
+                    j -= 1
+                    accs.insert(0, b[j].targets[0].id)
+                tv = {n.id for n in ast.walk(s_.target) if isinstance(n, ast.Name)}
+                if len(accs) >= 2 and len(set(accs)) == len(accs) and only_appends(s_.body, set(accs)) and not (set(accs) & tv):
+                    used = [a for a in accs if elements(s_.body, a)]
+                    reads = {n.id for x in s_.body for n in ast.walk(x) if isinstance(n, ast.Name) and isinstance(n.ctx, ast.Load)}
+                    recv = sum(1 for x in s_.body for n in ast.walk(x) if isinstance(n, ast.Name) and n.id in accs)
+                    napp = sum(len(elements(s_.body, a)) for a in accs)
+
+                    def plain(e):
+                        return all(isinstance(n, (ast.Tuple, ast.Constant, ast.Load, ast.Name)) and (not isinstance(n, ast.Name) or n.id in tv) for n in ast.walk(e))
+                    rich = [a for a in used if not all(plain(e) for e in elements(s_.body, a))]
+                    if len(used) >= 2 and recv == napp and len(rich) <= 1 and not (tv & _assigned_names(s_.body)):
+                        keep = out[:len(out) - (i - j)]
+                        inits = {b[k].targets[0].id: b[k] for k in range(j, i)}
+                        new = []
+                        for a in accs:
+                            new.append(inits[a])
+                            if a in used:
+                                lp = ast.copy_location(ast.For(target=copy.deepcopy(s_.target), iter=copy.deepcopy(s_.iter), body=restrict(s_.body, a), orelse=[]), s_)
+                                new.append(ast.fix_missing_locations(lp))
+                        out = keep + new
+                        i += 1
+                        continue
+            out.append(s_)
+            i += 1
+        return out
+    if not any(isinstance(n, ast.For) for s_ in stmts for n in ast.walk(s_)):
+        return stmts
+    return block(stmts)
+
+
+def merge_append_arms(stmts: list[ast.stmt]) -> list[ast.stmt]:
+    """if c: a.append(E) else: a.append(G)  ->  a.append(E if c else G);     for i, x in enumerate(X) with i never read  ->  for x in X"""
+    def is_append(s_):
+        return isinstance(s_, ast.Expr) and isinstance(s_.value, ast.Call) and isinstance(s_.value.func, ast.Attribute) and s_.value.func.attr == "append" \
+            and isinstance(s_.value.func.value, ast.Name) and len(s_.value.args) == 1 and not s_.value.keywords and not isinstance(s_.value.args[0], ast.Starred)
+
+    def block(b):
+        out = []
+        for s_ in b:
+            if isinstance(s_, (ast.FunctionDef, ast.AsyncFunctionDef, ast.ClassDef)):
+                out.append(s_)
+                continue
+            for fld in ("body", "orelse", "finalbody"):
+                bb = getattr(s_, fld, None)
+                if isinstance(bb, list) and bb and isinstance(bb[0], ast.stmt):
+                    setattr(s_, fld, block(bb))
+            if isinstance(s_, ast.Try):
+                for h in s_.handlers:
+                    h.body = block(h.body)
+            if isinstance(s_, ast.If) and len(s_.body) == 1 and len(s_.orelse) == 1 and is_append(s_.body[0]) and is_append(s_.orelse[0]) \
+                    and s_.body[0].value.func.value.id == s_.orelse[0].value.func.value.id \
+                    and not any(isinstance(n, ast.Name) and n.id == s_.body[0].value.func.value.id for n in ast.walk(s_.test)):
+                call = copy.deepcopy(s_.body[0])
+                call.value.args = [ast.IfExp(test=s_.test, body=s_.body[0].value.args[0], orelse=s_.orelse[0].value.args[0])]
+                out.append(ast.fix_missing_locations(ast.copy_location(call, s_)))
+                continue
+            if isinstance(s_, ast.For) and isinstance(s_.iter, ast.Call) and isinstance(s_.iter.func, ast.Name) and s_.iter.func.id == "enumerate" \
+                    and len(s_.iter.args) == 1 and not s_.iter.keywords and isinstance(s_.target, ast.Tuple) and len(s_.target.elts) == 2 \
+                    and isinstance(s_.target.elts[0], ast.Name):
+                ix = s_.target.elts[0].id
+                later = False        # (the index is read nowhere: not in the loop, not after it)
+                if not any(isinstance(n, ast.Name) and n.id == ix for x in s_.body + s_.orelse for n in ast.walk(x)) and not any(
+                        isinstance(n, ast.Name) and n.id == ix and isinstance(n.ctx, ast.Load) for x in stmts for n in ast.walk(x)):
+                    s_.target, s_.iter = s_.target.elts[1], s_.iter.args[0]
+            out.append(s_)
+        return out
+    if not any(isinstance(n, ast.For) for s_ in stmts for n in ast.walk(s_)):
+        return stmts
+    return block(stmts)
+
+
 def normalise_loops(stmts: list[ast.stmt]) -> list[ast.stmt]:
     stmts = [copy.deepcopy(s) for s in stmts]
+    stmts = merge_append_arms(split_accumulator_loops(stmts))
     total = _loads(stmts)
 
     def rec(block):
